@@ -277,8 +277,7 @@ def _char_pred(e, pn, ch, F=None, depth=0):
                 if p_.get("k") == "PExpr" and peel(p_["e"]).get("k") == "Lit" and peel(p_["e"])["lit"]["v"] == ch:
                     hit = True
                 if p_.get("k") == "PRange":
-                    lo, hi = lit_value(p_.get("lo") or {}), lit_value(p_.get("hi") or {})
-                    if isinstance(lo, str) and isinstance(hi, str) and lo <= ch <= hi:
+                    if prange_contains(p_, ch):
                         hit = True
             if hit and arm.get("guard") is None:
                 v = lit_value(arm["body"])
@@ -558,10 +557,10 @@ def _eval_reg_predicate(F, path, regnum, tn, classes, depth=0):
         if k in ("PRef", "PDeref"):
             return _pmatch(p["pat"], v)
         if k == "PRange":
-            lo, hi = lit_value(p.get("lo") or {}), lit_value(p.get("hi") or {})
-            if isinstance(v, int) and isinstance(lo, int) and isinstance(hi, int):
-                return lo <= v <= hi if p.get("inclusive", True) else lo <= v < hi
-            raise _PUnx("range pattern")
+            r_ = prange_contains(p, v)
+            if r_ is None:
+                raise _PUnx("range pattern")
+            return r_
         if k == "PExpr" or k == "PLit":
             x = peel(p.get("e") or p)
             lv = lit_value(x)
